@@ -22,7 +22,7 @@ ANCHORS = ["MPRenderer.draw_scenario", "MPRenderer.draw_dynamic_obstacle", "MPRe
            "MPRenderer.draw_phantom_obstacle", "MPRenderer.draw_environment_obstacle", "MPRenderer._draw_occupancy",
            "MPRenderer.draw_lanelet_network", "MPRenderer.draw_planning_problem_set", "MPRenderer.render",
            "BaseParam.__setattr__", "MPRenderer.draw_trajectory", "MPRenderer.draw_goal_region"]
-REQUIRED = ["totality.draw", "totality.render", "totality.rasterised", "types.icon", "types.shape", "exactness.static-with-later-initial-time-step", "flag.traffic_light.show_label", "totality.all-boolean-parameters-sampled", "renderer.plot-limits", "renderer.focus-obstacle", "renderer.lanelets-in-view-required", "exactness.checked", "exactness.dynamic-trajectory",
+REQUIRED = ["lights-at-selected-time.checked", "lights-at-selected-time.state-differs-from-step-0", "lights-at-selected-time.route-parameters-passed-to-scenario.draw", "lights-at-selected-time.route-second-frame-of-a-reused-renderer", "lights-at-selected-time.route-parameters-passed-to-light.draw", "trajectory-windows.renderer-focused-on-the-obstacle", "totality.draw", "totality.render", "totality.rasterised", "types.icon", "types.shape", "exactness.static-with-later-initial-time-step", "flag.traffic_light.show_label", "totality.all-boolean-parameters-sampled", "renderer.plot-limits", "renderer.focus-obstacle", "renderer.lanelets-in-view-required", "exactness.checked", "exactness.dynamic-trajectory",
             "exactness.dynamic-set", "exactness.static", "exactness.phantom", "exactness.environment",
             "exactness.window-before-horizon", "exactness.window-after-horizon", "exactness.no-occupancy-at-begin",
             "lanelets.all", "lanelets.subset", "lanelets.empty-list", "propagation.root", "propagation.nested",
@@ -616,7 +616,12 @@ def run(ctx):
                 fig = plt.figure(figsize=(3, 3))
                 stage = "draw"
                 try:
-                    rnd = MPRenderer(draw_params=P, ax=fig.gca())
+                    if mode == "off":
+                        # the plot follows this very obstacle (limits relative to where it is at the begin of the window)
+                        rnd = MPRenderer(draw_params=P, ax=fig.gca(), focus_obstacle=ob, plot_limits=[-15.0, 15.0, -10.0, 10.0])
+                        ctx.feature("trajectory-windows.renderer-focused-on-the-obstacle")
+                    else:
+                        rnd = MPRenderer(draw_params=P, ax=fig.gca())
                     sc.draw(rnd)
                     stage = "render"
                     rnd.render()
@@ -629,3 +634,119 @@ def run(ctx):
                                   {"layout": lay, "t0": t0, "window": [tb, te], "mode": mode})
                 finally:
                     plt.close(fig)
+
+    # ------------------------------------------------------------------------------- traffic lights at the selected time
+    # the lamp symbol and the colouring of the controlled lanelet's centre line show the state the model reports for the
+    # selected begin time step -- whichever way the parameters reach the renderer
+    import os as _os
+    import matplotlib.colors as _mc
+    from matplotlib.offsetbox import AnnotationBbox as _AB, OffsetImage as _OI
+    from PIL import Image as _Im
+    import commonroad.visualization.traffic_sign as _tsm
+    from commonroad.scenario.lanelet import LaneletNetwork as _LN
+    from commonroad.scenario.traffic_light import (TrafficLight as _TL, TrafficLightCycle as _TC,
+                                                   TrafficLightCycleElement as _TE, TrafficLightState as _TS)
+    ref_img = {}
+    for s_ in (_TS.RED, _TS.GREEN, _TS.YELLOW, _TS.RED_YELLOW):
+        pth_ = _os.path.join(_tsm.traffic_sign_path, "traffic_light_state_" + str(s_.value) + ".png")
+        if _os.path.exists(pth_):
+            ref_img[s_] = np.asarray(_Im.open(pth_))
+
+    def shown_symbols(artists):
+        found = []
+
+        def walk(box):
+            if isinstance(box, _OI):
+                data = np.asarray(box.get_data())
+                for s__, img in ref_img.items():
+                    if img.shape == data.shape and np.array_equal(img, data):
+                        found.append(s__)
+            for ch in box.get_children():
+                walk(ch)
+        for a_ in artists:
+            if isinstance(a_, _AB):
+                walk(a_.offsetbox)
+        return found
+
+    cycles = [[(_TS.RED, 10), (_TS.GREEN, 10)], [(_TS.GREEN, 3), (_TS.YELLOW, 2), (_TS.RED, 4), (_TS.RED_YELLOW, 1)],
+              [(_TS.RED, 1), (_TS.GREEN, 1)]]
+    routes = ["renderer-parameters", "parameters-passed-to-scenario.draw", "parameters-passed-to-network.draw",
+              "second-frame-of-a-reused-renderer", "parameters-passed-to-light.draw", "light-group-passed-to-light.draw"]
+    for i, rng in ctx.cases("lights-at-selected-time", len(cycles) * len(routes) * ctx.pick(2, 20)):
+        if len(ref_img) < 4:
+            ctx.counter("light-symbol-images-not-found")
+            break
+        cyc_def = cycles[i % len(cycles)]
+        route = routes[(i // len(cycles)) % len(routes)]
+        off = [0, 2][(i // 12) % 2]
+        total = sum(d for _, d in cyc_def)
+        xs_ = np.linspace(0.0, 40.0, 5)
+        mkl = lambda lid, x0: Lanelet_(np.stack([xs_ + x0, np.full(5, 2.0)], axis=1),  # noqa
+                                       np.stack([xs_ + x0, np.full(5, 0.0)], axis=1),
+                                       np.stack([xs_ + x0, np.full(5, -2.0)], axis=1), lid)
+        from commonroad.scenario.lanelet import Lanelet as Lanelet_
+        net = _LN()
+        net.add_lanelet(mkl(1, 0.0))
+        net.add_lanelet(mkl(2, 40.0))
+        light = _TL(100, np.array([40.0, 3.0]), _TC([_TE(s__, d) for s__, d in cyc_def], time_offset=off))
+        net.add_traffic_light(light, {1})
+        sc = Scenario(0.1)
+        sc.add_objects(net)
+        ctx.feature("lights-at-selected-time.route-" + route)
+        # time steps at which the state differs from the state at step 0 are the telling ones: one of them first
+        tbs = [t for t in range(0, 3 * total) if light.get_state_at_time_step(t) != light.get_state_at_time_step(0)][:1] + \
+              [rng.randint(0, 3 * total) for _ in range(2)]
+        for tb in tbs:
+            exp = light.get_state_at_time_step(tb)
+            ctx.evaluation()
+            ctx.fingerprint(["light-at", i % len(cycles), route, off, tb])
+            wit = {"cycle": [(s__.value, d) for s__, d in cyc_def], "offset": off, "time_begin": tb, "route": route}
+            fig = plt.figure(figsize=(3, 3))
+            try:
+                P = MPDrawParams()
+                P.time_begin = tb
+                if route == "renderer-parameters":
+                    rnd = MPRenderer(ax=fig.gca())
+                    rnd.draw_params.time_begin = tb
+                    sc.draw(rnd)
+                elif route == "parameters-passed-to-scenario.draw":
+                    rnd = MPRenderer(ax=fig.gca())
+                    sc.draw(rnd, P)
+                elif route == "parameters-passed-to-network.draw":
+                    rnd = MPRenderer(ax=fig.gca())
+                    sc.lanelet_network.draw(rnd, P)
+                elif route == "parameters-passed-to-light.draw":
+                    # the light alone, with the complete parameter object (every draw method accepts its own group or all)
+                    rnd = MPRenderer(ax=fig.gca())
+                    light.draw(rnd, P)
+                elif route == "light-group-passed-to-light.draw":
+                    rnd = MPRenderer(ax=fig.gca())
+                    light.draw(rnd, P.traffic_light)
+                else:
+                    P0 = MPDrawParams()
+                    P0.time_begin = 0
+                    rnd = MPRenderer(draw_params=P0, ax=fig.gca())
+                    sc.draw(rnd)
+                    rnd.render()
+                    rnd.draw_params = P
+                    sc.draw(rnd)
+                line_cols = [_mc.to_hex(a_.get_color()) for a_ in rnd.dynamic_artists if hasattr(a_, "get_color")]
+                symbols = shown_symbols(rnd.render())
+            except Exception as e:  # noqa
+                ctx.violation("C19/light-at-selected-time/raises-%s/%s" % (type(e).__name__, route), repr(e)[:200], wit)
+                continue
+            finally:
+                plt.close(fig)
+            ctx.feature("lights-at-selected-time.checked")
+            if exp != light.get_state_at_time_step(0):
+                ctx.feature("lights-at-selected-time.state-differs-from-step-0")
+            if symbols != [exp]:
+                ctx.violation("C19/light-at-selected-time/lamp-symbol-shows-another-state/%s" % route,
+                              "time_begin=%d: symbol shows %s, the model reports %s" % (
+                                  tb, [s__.value for s__ in symbols], exp.value), wit)
+            exp_hex = {_TS.RED: P.traffic_light.red_color, _TS.GREEN: P.traffic_light.green_color,
+                       _TS.YELLOW: P.traffic_light.yellow_color, _TS.RED_YELLOW: P.traffic_light.red_yellow_color}[exp]
+            if line_cols and _mc.to_hex(exp_hex) not in line_cols:
+                ctx.violation("C19/light-at-selected-time/centre-line-coloured-for-another-state/%s" % route,
+                              "time_begin=%d: line colours %s, the model reports %s (%s)" % (
+                                  tb, line_cols, exp.value, _mc.to_hex(exp_hex)), wit)
